@@ -56,7 +56,7 @@ def _walk_bodies(el):
 @st.composite
 def rich_models(draw, max_bodies=4, assets=True, defaults=True, frames=True, replicate=True, contact=True,
                 custom=True, keyframes=True, compiler=True, sizes=True, visual=True, extras=True, min_meshes=0,
-                min_textures=0, usethread=None, base_kwargs=None, hull=True):
+                min_textures=0, usethread=None, base_kwargs=None, hull=True, memory=None):
   kw = dict(max_bodies=max_bodies, sensors=True, mocap=True, userdata=True, cameras=True, lights=True,
             opt_kwargs=dict(sleep=False))
   kw.update(base_kwargs or {})
@@ -103,6 +103,12 @@ def rich_models(draw, max_bodies=4, assets=True, defaults=True, frames=True, rep
       if k != 'usethread':
         labels.add('compiler:' + k)
   nuser = {}
+  if memory:
+    s = root.find('size')
+    if s is None:
+      s = ET.Element('size')
+      root.insert(1 if comp else 0, s)
+    s.set('memory', memory)
   if sizes and draw(st.integers(0, 2)) == 0:
     s = root.find('size')
     if s is None:
